@@ -81,8 +81,8 @@ def main():
 
     # ---- traditional, 5 windows on an 8-point grid --------------------------------------------
     nw, nf = (4, 8) if quick else (5, 8)
-    k_ex = 210 if quick else 20           # of the 210 (NW=4) / 462 (NW=5) window multisets over 7 curves
-    ex = hvsrobj.cfg_text(1, nw, nf, "Alpha8a", "Ranges8", "NSetC", "MaxItsC", "InitPermsEnvQ" if quick else "InitPermsEnv", export=True, nxt="NextC06",
+    k_ex = 210 if quick else 462          # of the 210 (NW=4) / 462 (NW=5) window multisets over 7 curves
+    ex = hvsrobj.cfg_text(1, nw, nf, "Alpha8a", "Ranges8", "NSetC", "MaxItsC", "InitPermsEnvQ", export=True, nxt="NextC06",
                           invariants=["TypeOK", "PeaksCurrent"], props=["FdwraStep"])
     res, graph = hvsrobj.export_graph(ex, "C06-export", {"VERIF_K": k_ex, "VERIF_SEED": run.seed}, timeout=6000)
     run.add_tlc(res, "HvsrObject NextC06 (I tier, all orderings of the sampled window multisets): FdwraStep = never "
@@ -149,7 +149,7 @@ def main():
     # ---- azimuthal: 2 azimuths x 3 windows --------------------------------------------------------
     ex2 = hvsrobj.cfg_text(2, 3, 6, "Alpha6a", "Ranges6s", "NSetC", "MaxItsC", "InitEnv", export=True, nxt="NextC06",
                            props=["FdwraStep"])
-    res, graph2 = hvsrobj.export_graph(ex2, "C06-export2", {"VERIF_K": 12000 if quick else 900, "VERIF_SEED": run.seed}, timeout=3000)
+    res, graph2 = hvsrobj.export_graph(ex2, "C06-export2", {"VERIF_K": 12000 if quick else 3000, "VERIF_SEED": run.seed}, timeout=3000)
     run.add_tlc(res, "HvsrObject NA=2 NextC06 export + FdwraStep")
     consts2 = ("  NA = 2\n  NW = 3\n  NF = 6\n  Alphabet <- Alpha6a\n  Ranges <- Ranges6s\n  NSet <- NSetC\n"
                "  MaxIts <- MaxItsC\n  TdMasks <- AllMasks\n  InitSel <- InitAll\n  SThr <- SThrHalf\n")
